@@ -16,7 +16,7 @@ from .. import core
 from ..ebb3drv import (call, decoy_problem, is_failure_value, make_decoy, new_object,
                        operations)
 from ..explore import Stats, explore, run_vector
-from ..fakeserial import EBB3Board, Profile
+from ..fakeserial import PYSERIAL_READ_FAULTS, PYSERIAL_WRITE_FAULTS, EBB3Board, Profile
 
 PROPERTY = "C05"
 MAXLAT = 25
@@ -25,7 +25,8 @@ MAXLAT = 25
 EXCS = ("SerialException", "PortNotOpenError", "SerialTimeoutException", "OSError",
         "RuntimeError", "OSError_EAGAIN",
         "InterruptedError", "BrokenPipeError")
-PRIM_PROFILE = Profile(write_exc=EXCS, read_exc=EXCS, latency=(0, 1, 24, 25, 26),
+# ... and each fault pyserial's own read()/write() can raise, with the class and text pyserial uses
+PRIM_PROFILE = Profile(write_exc=EXCS + PYSERIAL_WRITE_FAULTS, read_exc=EXCS + PYSERIAL_READ_FAULTS, latency=(0, 1, 24, 25, 26),
                        content=("bare", "nocomma", "echo", "commapay", "spacepay", "tabpay", "bangpay",
                                 "okpay", "errpay", "banner", "wrong",
                                 "shifted", "err", "nameerr", "sibling", "cut", "longerr", "jsonish",
